@@ -253,6 +253,7 @@ UNARY = {
     "aten.neg.default": S.neg, "aten.abs.default": S.absv, "aten.sign.default": S.sign, "aten.sgn.default": S.sign,
     "aten.sqrt.default": S.sqrt, "aten.reciprocal.default": S.reciprocal,
     "aten.rsqrt.default": lambda x: S.div(1.0, S.sqrt(x)),
+    "aten.log1p.default": (lambda x: s_log(S.add(1.0, x))), "aten.expm1.default": (lambda x: S.sub(s_exp(x), 1.0)),
     "aten.exp.default": s_exp, "aten.log.default": s_log, "aten.log10.default": s_log10, "aten.log2.default": s_log2,
     "aten.tanh.default": s_tanh, "aten.atanh.default": s_atanh, "aten.sigmoid.default": s_sigmoid,
     "aten.round.default": s_round, "aten.floor.default": S.round_, "aten.ceil.default": S.round_, "aten.trunc.default": S.round_,
@@ -637,6 +638,16 @@ def _draw(ctx, kind, n, dtype):
 
 
 def dispatch(func, name, args, kwargs):
+    r = _dispatch(func, name, args, kwargs)
+    if func._schema.is_mutable and args and isinstance(args[0], SymTensor) and getattr(args[0], "_cx_link", None) is not None:
+        rv, cb = args[0]._cx_link
+        ra, ca = rv.arr(), cb.arr()
+        for idx in np.ndindex(*ca.shape):
+            ca[idx] = S.Cx(ra[idx + (0,)], ra[idx + (1,)])
+    return r
+
+
+def _dispatch(func, name, args, kwargs):
     if name in RANDOM_OPS:
         args = tree_map(_to_sym, args)
         return _stub_random(name, func, args, kwargs)
@@ -674,7 +685,13 @@ def dispatch(func, name, args, kwargs):
     if name in VIEW_OPS:
         mout = run_meta(func, args, kwargs)
         base = args[0]
-        return tree_map(lambda m: SymTensor(base.storage_, m) if isinstance(m, torch.Tensor) else m, mout)
+
+        def mkview(m):
+            v = SymTensor(base.storage_, m)
+            if getattr(base, "_cx_link", None) is not None:
+                v._cx_link = base._cx_link
+            return v
+        return tree_map(lambda m: mkview(m) if isinstance(m, torch.Tensor) else m, mout)
     if not sch.is_mutable and not has_symscalar and name not in STRUCTURAL:
         if GT.has_g(args, kwargs, SymTensor):
             if name in GT.POINTWISE:
@@ -948,7 +965,9 @@ def h_view_as_real(func, args, kwargs):
         out[idx + (0,)] = v.re
         out[idx + (1,)] = v.im
     rd = {torch.complex64: torch.float32, torch.complex128: torch.float64}[args[0].dtype]
-    return from_arr(out, rd)
+    r = from_arr(out, rd)
+    r._cx_link = (r, args[0])      # torch.view_as_real ALIASES its argument: in-place writes are mirrored back (see dispatch)
+    return r
 
 
 @handler("aten.view_as_complex.default")
